@@ -273,8 +273,8 @@ def rec_c10_dup_zero(f):
 
 
 PLANS["C10"] = dict(
-    suites=[Suite("tl", 600, 50000), Suite("merged", 100, 3000)],
-    floors=TL_FLOORS,
+    suites=[Suite("tl", 600, 50000), Suite("merged", 100, 3000), Suite("sub", 600, 40000)],
+    floors={"quick": dict(TL_FLOORS["quick"], **{"op:subat": 15000})},
     recognisers={"c10_dup_zero": rec_c10_dup_zero},
     assumptions=["start_value_until_delay: no second keyframe defines the property at 0 % (NoDupAtZero) and endpoint-fixing easings; the unrestricted statement is refuted (F-C10)"],
 )
